@@ -110,7 +110,7 @@ def grep_gate():
     return True
 
 
-def coq_make(targets):
+def coq_make(targets, limit=1500):
     """Incremental full .vo build of the given targets (and everything they need)."""
     with Lock("coq"):
         # translators: the generated tables are rebuilt from /repo/src before every build
@@ -118,10 +118,14 @@ def coq_make(targets):
         sh(["python3", os.path.join(VERIF, "tools", "gen_opstate.py"), REPO], check=True)
         sh(["python3", os.path.join(VERIF, "tools", "gen_forms.py"), REPO], check=True)
         sh(["python3", os.path.join(VERIF, "tools", "gen_lazy.py"), REPO], check=True)
+        sh(["python3", os.path.join(VERIF, "tools", "gen_bodies.py"), REPO], check=True)
         mk = os.path.join(COQ, "Makefile")
         if not os.path.exists(mk) or os.path.getmtime(mk) < os.path.getmtime(os.path.join(COQ, "_CoqProject")):
             sh(["coq_makefile", "-f", "_CoqProject", "-o", "Makefile"], cwd=COQ, check=True)
-        rc, out = sh(["timeout", "1500", "make", "-j%d" % NPROC] + targets, cwd=COQ)
+        rc, out = sh(["timeout", str(limit), "make", "-j%d" % NPROC] + targets, cwd=COQ)
+        if rc == 124:
+            raise CheckFailure("coq-build", "make %s did not finish within %d s (a proof script no longer terminates on what the translators produced)\n%s"
+                               % (" ".join(targets), limit, out[-3000:]))
         if rc != 0:
             raise CheckFailure("coq-build", out[-6000:])
     return out
@@ -227,12 +231,7 @@ def build_harness():
     return os.path.join(HARNESS, "target", "release", "rxverif-harness")
 
 
-def run_impl(case_file, threads=NPROC, timeout=900):
-    exe = os.path.join(HARNESS, "target", "release", "rxverif-harness")
-    rc, out = sh(["timeout", str(timeout), exe, case_file, str(threads)])
-    if rc != 0:
-        raise CheckFailure("harness-run", "exit %d\n%s" % (rc, out[-3000:]))
-    res = {}
+def _parse_impl(out, res):
     for line in out.split("\n"):
         if not line:
             continue
@@ -241,6 +240,67 @@ def run_impl(case_file, threads=NPROC, timeout=900):
             res[line] = ""
         else:
             res[line[:i]] = line[i + 1:]
+
+
+def run_impl(case_file, threads=NPROC, timeout=900):
+    """Run the cases on the crate.  When the harness process dies (an abort cannot be caught inside it: failed
+    allocation, stack overflow, double panic), the case that kills it is searched for by bisection and gets the
+    observation `ABORT <last words>`; the others are run again without it."""
+    exe = os.path.join(HARNESS, "target", "release", "rxverif-harness")
+    rc, out = sh(["timeout", str(timeout), exe, case_file, str(threads)])
+    res = {}
+    if rc == 0:
+        _parse_impl(out, res)
+        return res
+    if rc == 124:
+        raise CheckFailure("harness-run", "exit %d\n%s" % (rc, out[-3000:]))
+    lines = [l for l in open(case_file).read().split("\n") if l.strip()]
+
+    def runs(sub, tag):
+        part = "%s.bisect%s" % (case_file, tag)
+        with open(part, "w") as f:
+            f.write("\n".join(sub) + "\n")
+        r, o = sh(["timeout", "300", exe, part, str(threads if len(sub) > 1 else 1)])
+        os.unlink(part)
+        return r, o
+
+    # shards first: most of them survive; then bisection inside a few of the shards that die
+    nsh = 32
+    shards = [lines[k::nsh] for k in range(nsh)]
+    dead = []
+    for k, sub in enumerate(shards):
+        if not sub:
+            continue
+        r, o = runs(sub, "s%d" % k)
+        if r == 0:
+            _parse_impl(o, res)
+        else:
+            dead.append(sub)
+    if not dead:
+        raise CheckFailure("harness-run", "exit %d on the whole case file, but on none of its shards\n%s" % (rc, out[-3000:]))
+    killers = 0
+    for sub in dead:
+        if killers >= 3:
+            for l in sub:
+                res[l.split(" ", 2)[1]] = "NOTRUN"
+            continue
+        lo, hi = 0, len(sub)          # a killing case lies in sub[lo:hi]
+        while hi - lo > 1:
+            mid = (lo + hi) // 2
+            r, o = runs(sub[lo:mid], "h")
+            if r != 0:
+                hi = mid
+            else:
+                lo = mid
+        r, o = runs(sub[lo:hi], "one")
+        for l in sub:
+            res[l.split(" ", 2)[1]] = "NOTRUN"
+        if r != 0:
+            words = [l for l in o.split("\n") if l.strip() and not l.startswith(("stack backtrace", "skipping backtrace"))]
+            res[sub[lo].split(" ", 2)[1]] = "ABORT " + (words[0][:200] if words else "exit %d" % r)
+            killers += 1
+    if not killers:
+        raise CheckFailure("harness-run", "exit %d\n%s" % (rc, out[-3000:]))
     return res
 
 
@@ -386,12 +446,13 @@ TRUSTED_BASE = [
 ]
 
 
-def proof_stage(report, prop_file):
+def proof_stage(report, prop_file, limit=1500):
     """Grep gate, incremental build, re-check of the property file.  A failure here is
-    reported as a violation without failing input (the theorem no longer checks)."""
+    reported as a violation without failing input (the theorem no longer checks).
+    Called a second time for a further property file, it adds to what the first call recorded."""
     try:
         grep_gate()
-        coq_make(["Props/%s.vo" % prop_file])
+        coq_make(["Props/%s.vo" % prop_file], limit)
         info = recheck_props(prop_file)
         if report.tier == "thorough":
             info["coqchk"] = coqchk_props(prop_file)
@@ -400,12 +461,15 @@ def proof_stage(report, prop_file):
                                   {"obligation": e.what, "detail": e.detail, "failing_input_found": False}))
         return None
     c = report.coverage
-    c["obligations"] = info["obligations"]
-    c["discharged"] = info["discharged"]
-    c["checker_cmd"] = "make -C coq Props/%s.vo && coqc Props/%s.v (Print Assumptions parsed)" % (prop_file, prop_file)
-    c["trusted_base"] = TRUSTED_BASE + ["Print Assumptions: " + info["print_assumptions"]] + ([info["coqchk"]] if info.get("coqchk") else [])
-    c["theorems"] = info["theorems"]
-    c["examples"] = info["examples"]
+    first = not c.get("theorems")
+    c["obligations"] = (0 if first else c["obligations"]) + info["obligations"]
+    c["discharged"] = (0 if first else c["discharged"]) + info["discharged"]
+    cmd = "make -C coq Props/%s.vo && coqc Props/%s.v (Print Assumptions parsed)" % (prop_file, prop_file)
+    c["checker_cmd"] = cmd if first else c["checker_cmd"] + "; " + cmd
+    tb = ["Print Assumptions: " + info["print_assumptions"]] + ([info["coqchk"]] if info.get("coqchk") else [])
+    c["trusted_base"] = (TRUSTED_BASE + tb) if first else c["trusted_base"] + ["%s: %s" % (prop_file, t) for t in tb]
+    c["theorems"] = (c.get("theorems") or []) + info["theorems"]
+    c["examples"] = (c.get("examples") or []) + info["examples"]
     return info
 
 
@@ -444,6 +508,9 @@ def correspond(rep, name, cases, theorem, compare_model=True, impl_timeout=900):
     for cid, text, tags in cases:
         i, m, sp = impl.get(cid), model.get(cid), spec.get(cid)
         out[cid] = (i, m, sp)
+        if i == "NOTRUN":       # in a shard that died with another case's abort
+            rep.coverage["not_run_after_abort"] = rep.coverage.get("not_run_after_abort", 0) + 1
+            continue
         if i:
             distinct.add(text.split(" ", 2)[2])
         o = orc.get(cid)
